@@ -341,7 +341,7 @@ class StreamableHTTPTransport(Transport):
 
                     if not line:
                         # Empty line marks end of event
-                        if current_event and event_data:
+                        if event_data:
                             await self._process_sse_event(
                                 current_event, event_data, message_id
                             )
@@ -349,15 +349,15 @@ class StreamableHTTPTransport(Transport):
                         event_data = []
                         continue
 
-                    # Parse SSE format
-                    if line.startswith("event: "):
-                        current_event = line[7:].strip()
-                    elif line.startswith("data: "):
-                        data = line[6:]  # Keep formatting
-                        event_data.append(data)
+                    # Parse SSE format (the space after the colon is optional)
+                    if line.startswith("event:"):
+                        current_event = line[6:].strip()
+                    elif line.startswith("data:"):
+                        data = line[5:]
+                        event_data.append(data[1:] if data.startswith(" ") else data)
 
             # Process any remaining event
-            if current_event and event_data:
+            if event_data:
                 await self._process_sse_event(current_event, event_data, message_id)
 
         except Exception as e:
@@ -381,7 +381,7 @@ class StreamableHTTPTransport(Transport):
 
                 if not line:
                     # Empty line marks end of event
-                    if current_event and event_data:
+                    if event_data:
                         await self._process_sse_event(
                             current_event, event_data, message_id
                         )
@@ -389,15 +389,15 @@ class StreamableHTTPTransport(Transport):
                     event_data = []
                     continue
 
-                # Parse SSE format
-                if line.startswith("event: "):
-                    current_event = line[7:].strip()
-                elif line.startswith("data: "):
-                    data = line[6:]  # Keep formatting
-                    event_data.append(data)
+                # Parse SSE format (the space after the colon is optional)
+                if line.startswith("event:"):
+                    current_event = line[6:].strip()
+                elif line.startswith("data:"):
+                    data = line[5:]
+                    event_data.append(data[1:] if data.startswith(" ") else data)
 
             # Process any remaining event
-            if current_event and event_data:
+            if event_data:
                 await self._process_sse_event(current_event, event_data, message_id)
 
         except Exception as e:
